@@ -10,18 +10,52 @@ def showRes : CSem.Res → String
   | .ok v => s!"ok {v}"
   | .err c => s!"err {c}"
 
-def asm (f : String) (a : List Nat) : Option String :=
+def asmVal (f : String) (x y : Nat) : Option Nat :=
   let m64 := 2^64; let m32 := 2^32
-  match f, a with
-  | "aws_mul_u64_saturating", [x, y] => some s!"val {MathAsm.aws_mul_u64_saturating (x % m64) (y % m64)}"
-  | "aws_mul_u64_checked", [x, y] => some (showRes (MathAsm.aws_mul_u64_checked (x % m64) (y % m64)))
-  | "aws_mul_u32_saturating", [x, y] => some s!"val {MathAsm.aws_mul_u32_saturating (x % m32) (y % m32)}"
-  | "aws_mul_u32_checked", [x, y] => some (showRes (MathAsm.aws_mul_u32_checked (x % m32) (y % m32)))
-  | "aws_add_u64_saturating", [x, y] => some s!"val {MathAsm.aws_add_u64_saturating (x % m64) (y % m64)}"
-  | "aws_add_u64_checked", [x, y] => some (showRes (MathAsm.aws_add_u64_checked (x % m64) (y % m64)))
-  | "aws_add_u32_saturating", [x, y] => some s!"val {MathAsm.aws_add_u32_saturating (x % m32) (y % m32)}"
-  | "aws_add_u32_checked", [x, y] => some (showRes (MathAsm.aws_add_u32_checked (x % m32) (y % m32)))
-  | _, _ => none
+  match f with
+  | "aws_mul_u64_saturating" => some (MathAsm.aws_mul_u64_saturating (x % m64) (y % m64))
+  | "aws_mul_u32_saturating" => some (MathAsm.aws_mul_u32_saturating (x % m32) (y % m32))
+  | "aws_add_u64_saturating" => some (MathAsm.aws_add_u64_saturating (x % m64) (y % m64))
+  | "aws_add_u32_saturating" => some (MathAsm.aws_add_u32_saturating (x % m32) (y % m32))
+  | _ => none
+
+def asmRes (f : String) (x y : Nat) : Option CSem.Res :=
+  let m64 := 2^64; let m32 := 2^32
+  match f with
+  | "aws_mul_u64_checked" => some (MathAsm.aws_mul_u64_checked (x % m64) (y % m64))
+  | "aws_mul_u32_checked" => some (MathAsm.aws_mul_u32_checked (x % m32) (y % m32))
+  | "aws_add_u64_checked" => some (MathAsm.aws_add_u64_checked (x % m64) (y % m64))
+  | "aws_add_u32_checked" => some (MathAsm.aws_add_u32_checked (x % m32) (y % m32))
+  | _ => none
+
+/-- the assembly variant; `f@ctx` is the same function called in another context of the C harness
+(`store`: result of `f a b`; `sum`: `f a b + f b a`; `acc`: `f a b + f b a + f a b`, all mod 2^64) -/
+def asm (fc : String) (a : List Nat) : Option String :=
+  let (f, ctx) := match fc.splitOn "@" with
+    | [f] => (f, "")
+    | [f, c] => (f, c)
+    | _ => ("", "?")
+  match a with
+  | [x, y] =>
+    let comb (v1 v2 : Nat) : Option Nat :=
+      match ctx with
+      | "" => some v1
+      | "store" => some v1
+      | "sum" => some ((v1 + v2) % 2^64)
+      | "acc" => some ((v1 + v2 + v1) % 2^64)
+      | _ => none
+    match asmVal f x y, asmVal f y x with
+    | some v1, some v2 => (comb v1 v2).map (fun v => s!"val {v}")
+    | _, _ =>
+      match asmRes f x y, asmRes f y x with
+      | some r1, some r2 =>
+        if ctx == "" || ctx == "store" then some (showRes r1)
+        else match r1, r2 with
+          | .ok v1, .ok v2 => (comb v1 v2).map (fun v => s!"ok {v}")
+          | .err c, _ => if ctx == "sum" || ctx == "acc" then some (showRes (.err c)) else none
+          | _, .err c => if ctx == "sum" || ctx == "acc" then some (showRes (.err c)) else none
+      | _, _ => none
+  | _ => none
 
 def step (s : Unit) (t : List String) : Unit × List String :=
   match t with
